@@ -773,6 +773,103 @@ fn registry(case: &Value) {
     println!("{}", serde_json::to_string(&json!({"results": results, "available": available, "next": next, "copy_available": copy_available, "slice_all": slice_all})).unwrap());
 }
 
+/// One operation on a real `Tour` (C14): the tour is built through the public API from the label sequence of the case.
+fn tour_step(case: &Value) {
+    use vrp_core::models::solution::Tour;
+    let closed = case["closed"].as_bool().unwrap();
+    let vehicle = Vehicle {
+        profile: Profile::default(),
+        costs: costs(&Value::Null),
+        dimens: Default::default(),
+        details: vec![VehicleDetail {
+            start: Some(VehiclePlace { location: 0, time: TimeInterval { earliest: Some(0.), latest: None } }),
+            end: if closed { Some(VehiclePlace { location: 0, time: TimeInterval { earliest: None, latest: Some(1000.) } }) } else { None },
+        }],
+    };
+    let driver = Driver { costs: costs(&Value::Null), dimens: Default::default(), details: vec![] };
+    let fleet = Fleet::new(vec![Arc::new(driver)], vec![Arc::new(vehicle)], |_| |_| 0);
+    let actor = fleet.actors[0].clone();
+    let mk = |id: &str| {
+        let mut dimens = Dimensions::default();
+        dimens.set_job_id(id.to_string());
+        Arc::new(Single { places: vec![], dimens })
+    };
+    let multi = Multi::new_shared(vec![mk("sB1"), mk("sB2")], Dimensions::default());
+    let singles: HashMap<String, Arc<Single>> = vec![
+        ("sA".to_string(), mk("sA")),
+        ("sB1".to_string(), multi.jobs[0].clone()),
+        ("sB2".to_string(), multi.jobs[1].clone()),
+        ("sC".to_string(), mk("sC")),
+        ("sD".to_string(), mk("sD")),
+    ]
+    .into_iter()
+    .collect();
+    let job_of = |name: &str| match name {
+        "A" => Job::Single(singles["sA"].clone()),
+        "M" => Job::Multi(multi.clone()),
+        "C" => Job::Single(singles["sC"].clone()),
+        _ => Job::Single(singles["sD"].clone()),
+    };
+    let job_name = |job: &Job| match job {
+        Job::Multi(_) => "M".to_string(),
+        Job::Single(s) => match s.dimens.get_job_id().unwrap().as_str() {
+            "sA" => "A".to_string(),
+            "sC" => "C".to_string(),
+            _ => "D".to_string(),
+        },
+    };
+    let mut tour = Tour::new(&actor);
+    for lab in case["pre"].as_array().unwrap().iter().map(|l| l.as_str().unwrap()) {
+        if lab != "start" && lab != "end" {
+            tour.insert_last(Activity::new_with_job(singles[lab].clone()));
+        }
+    }
+    let original = if case["op"] == "copy" { Some(tour.deep_copy()) } else { None };
+    let mut result = Value::Null;
+    let arg = &case["arg"];
+    let mut subject = if case["op"] == "copy" { tour.deep_copy() } else { Tour::default() };
+    let t: &mut Tour = if case["op"] == "copy" { &mut subject } else { &mut tour };
+    match case["op"].as_str().unwrap() {
+        "insert_at" => {
+            t.insert_at(Activity::new_with_job(singles[arg[0].as_str().unwrap()].clone()), arg[1].as_u64().unwrap() as usize);
+        }
+        "insert_last" => {
+            t.insert_last(Activity::new_with_job(singles[arg.as_str().unwrap()].clone()));
+        }
+        "remove" => result = json!(t.remove(&job_of(arg.as_str().unwrap()))),
+        "remove_activity_at" => result = json!(job_name(&t.remove_activity_at(arg.as_u64().unwrap() as usize))),
+        "copy" => {
+            t.insert_at(Activity::new_with_job(singles[arg[0][0].as_str().unwrap()].clone()), arg[0][1].as_u64().unwrap() as usize);
+            t.remove(&job_of(arg[1].as_str().unwrap()));
+        }
+        _ => {}
+    }
+    let observe = |t: &Tour| {
+        let total = t.total();
+        let label = |idx: usize, a: &Activity| match &a.job {
+            Some(s) => s.dimens.get_job_id().unwrap().clone(),
+            None if idx == 0 => "start".to_string(),
+            None if closed && idx + 1 == total => "end".to_string(),
+            None => "?".to_string(),
+        };
+        let labels: Vec<String> = t.all_activities().enumerate().map(|(i, a)| label(i, a)).collect();
+        let legs: Vec<Value> = t.legs().map(|(acts, idx)| json!([acts.iter().enumerate().map(|(o, a)| label(idx + o, a)).collect::<Vec<_>>(), idx])).collect();
+        let mut jobs: Vec<String> = t.jobs().map(&job_name).collect();
+        jobs.sort();
+        let per_job: serde_json::Map<String, Value> = ["A", "M", "C", "D"].iter().map(|j| {
+            let job = job_of(j);
+            let contains = if t.contains(&job) == t.has_job(&job) { json!(t.contains(&job)) } else { json!("contains/has_job disagree") };
+            (j.to_string(), json!({"contains": contains, "index": t.index(&job), "index_last": t.index_last(&job), "activities": t.job_activities(&job).count()}))
+        }).collect();
+        json!({"labels": labels, "total": total, "job_activity_count": t.job_activity_count(), "job_count": t.job_count(), "has_jobs": t.has_jobs(),
+               "jobs": jobs, "legs": legs, "end_idx": t.end_idx(), "per_job": per_job,
+               "start_is_first": t.start().map(|a| a.job.is_none()).unwrap_or(false),
+               "end_is_last": t.end().map(|a| a.job.is_none() == closed || total == 1).unwrap_or(false)})
+    };
+    let out = json!({"result": result, "after": observe(t), "original": original.as_ref().map(|_| observe(&tour))});
+    println!("{}", serde_json::to_string(&out).unwrap());
+}
+
 /// `Statistic + Statistic` through the public operator.
 fn statistic_sum(case: &Value) {
     use vrp_pragmatic::format::solution::{Statistic, Timing};
@@ -822,6 +919,9 @@ fn main() {
     }
     if case["kind"] == "registry" {
         return registry(&case);
+    }
+    if case["kind"] == "tour" {
+        return tour_step(&case);
     }
     if case["kind"] == "min_variation" {
         return min_variation(&case);
